@@ -33,6 +33,9 @@ func (SMEnabled) Name() string {
 type UnAckQueue struct {
 	Uslice []*UnAckedStz
 	sync.RWMutex
+	// lastId is the sequence number given to the last pushed element. Numbering goes on when the queue
+	// empties, so that the Id of an element is its position among all the elements ever pushed.
+	lastId int
 }
 type UnAckedStz struct {
 	Id  int
@@ -117,6 +120,11 @@ func (uaq *UnAckQueue) Push(s Queueable) error {
 	if !ok {
 		return errors.New("element in not compatible with this queue. expected an UnAckedStz")
 	}
+
+	if pushIdx <= uaq.lastId {
+		pushIdx = uaq.lastId + 1
+	}
+	uaq.lastId = pushIdx
 
 	e := UnAckedStz{
 		Id:  pushIdx,
